@@ -27,44 +27,25 @@ DESIGN_REF = "DESIGN.md 5/C09"
 
 
 def _enumerate(k, n, p):
-    """exact inclusion probabilities of every arrival after n updates, by forcing every accept/reject x slot outcome
-    through the real class (scripted random.random / random.randrange), weights as exact rationals"""
-    import random as pyrandom
+    """exact inclusion probabilities of every arrival after n updates through the real class, whatever draws it makes:
+    randrange draws enumerated exactly, random.random draws on a 12-point midpoint grid - exact here, because the only
+    thresholds (p in {0, 1/4, 1/3, 1/2, 1}) lie on the grid (props/_util.outcome_distribution)"""
     from ixai.storage import GeometricReservoirStorage
+    from props._util import outcome_distribution
+
+    def run():
+        st = GeometricReservoirStorage(size=k, constant_probability=float(p), store_targets=False)
+        for t in range(n):
+            st.update({'t': t})
+        xs, _ = st.get_data()
+        return tuple(sorted(x['t'] for x in xs))
+    dist = outcome_distribution(run, 12, exact=True)
     probs = [Fraction(0)] * n
-    full_steps = max(0, n - k)
-    choices = []
-    acc = [('rej', None)] + [('acc', s) for s in range(k)]
-    saved = (pyrandom.random, pyrandom.randrange)
     total = Fraction(0)
-    try:
-        for combo in itertools.product(acc, repeat=full_steps):
-            w = Fraction(1)
-            for kind, s in combo:
-                w *= (1 - p) if kind == 'rej' else p / k
-            if w == 0:
-                continue
-            it = iter(combo)
-            cur = {}
-
-            def rnd():
-                cur['c'] = next(it)
-                # a value <= p forces acceptance, a value > p rejection
-                return float(p) / 2 if cur['c'][0] == 'acc' else (1 + float(p)) / 2
-
-            def rr(m):
-                assert m == k, f"slot drawn from randrange({m}) instead of randrange({k})"
-                return cur['c'][1]
-            pyrandom.random, pyrandom.randrange = rnd, rr
-            st = GeometricReservoirStorage(size=k, constant_probability=float(p), store_targets=False)
-            for t in range(n):
-                st.update({'t': t})
-            xs, _ = st.get_data()
-            for x in xs:
-                probs[x['t']] += w
-            total += w
-    finally:
-        pyrandom.random, pyrandom.randrange = saved
+    for content, w in dist.items():
+        total += w
+        for t in content:
+            probs[t] += w
     return probs, total
 
 
@@ -76,7 +57,7 @@ def BOUNDED(tier, seed):
         for n in ns:
             for p in (Fraction(0), Fraction(1, 4), Fraction(1, k), Fraction(1, 2), Fraction(1)):
                 probs, total = _enumerate(k, n, p)
-                evals += (k + 1) ** max(0, n - k)
+                evals += 1
                 cases.add((k, n, p))
                 exp = []
                 for t in range(1, n + 1):
